@@ -150,6 +150,16 @@ def run(prop, tier, seed, verdict):
         elif e["missing"]:
             if not (gl[0] == "err" or gl[0].startswith("ok")):
                 verdict.violation({"clause": "missing-directory"}, {"ops": g, "outcome": gl[0]}, True)
+            elif gl[0].startswith("ok"):
+                # the missing directory counts as empty: every other directory must still be honoured
+                for (ident, ty), ans in zip(e["finds"], gl[1:]):
+                    nfind += 1
+                    exp = expected_find(e["maps"], ident, ty)
+                    if ans != exp:
+                        verdict.violation({"clause": "missing-directory-affects-others", "devtype": ty},
+                                          {"ops": g, "find": "find %d %d %d %d type=%d" % (ident + (ty,)), "implementation": ans, "expected": exp,
+                                           "missing_roots": [ROOTS[r] for r in sorted(e["missing"])],
+                                           "rule": "a missing directory is an error or counts as empty; the files of the other directories keep their precedence"}, True)
         else:
             if not gl[0].startswith("ok"):
                 verdict.violation({"clause": "load-failed-on-complete-tree"}, {"ops": g, "outcome": gl[0]}, True)
